@@ -1,15 +1,61 @@
-"""C10 - see properties.jsonl; DESIGN.md section 5."""
+"""C10 - metadata serialisation is lossless, IDL-conformant and safe for any size."""
+import os
+import re
+
+from contracts import c10_tables, kernels
+from contracts.util import merge_and_record
+from vlib.common import PROVED, REFUTED, UNKNOWN
 from ._generic import run_property
 
-EXPLANATION = 'Bounded stand-in: structs generated from the IDL through the API and from independently encoded bytes: to_bytes decodes strictly per IDL to the same values, from_buffer round trip, pickle; oversize payloads only in subprocesses.'
+EXPLANATION = (
+    "P (finite domains decided by enumeration on the real sources + the shared 64-bit lemmas): the field-id and children tables of "
+    "cencoding.pyx equal the IDL shipped with the library for every struct they contain; every field id is inside write_thrift's "
+    "field loop (refuted for id 14 = known finding); every thrift construction site in the .py files carries an integer-width "
+    "marker that declares exactly its 32-bit integer fields; no boolean expression is assigned to an integer/enum field; varint "
+    "and zigzag round trips hold on the whole 64-bit domain (obligations of C11 re-run). NOT under contract: the byte-level "
+    "behaviour of write_thrift/read_thrift per wire kind, to_bytes capacity, dict_eq - these are covered by the bounded IDL "
+    "round-trip contract only (strict IDL decode of to_bytes output, foreign bytes re-serialised, pickle), labelled bounded. "
+    "Level 'other': mixed.")
+
+KNOWN = [("C10-P-field-id-14-outside-loop", re.compile(r"^write_thrift\.field_range\[(ColumnMetaData|LogicalType)\]"))]
 
 
-def p_parts():
-    return []
+def p_tables(ctx):
+    res, specs, idl = c10_tables.check_tables(ctx)
+    res2 = c10_tables.check_ctor_sites(ctx, specs, idl)
+    for r, fn in ((res, "cencoding tables / write_thrift"), (res2, "thrift construction sites (.py)")):
+        for name in r.order:
+            st = r.status(name)
+            e = r.d[name][0]
+            fid = next((f for f, rx in KNOWN if rx.search(name)), None)
+            if st == REFUTED and fid and ctx.is_known(fid):
+                ctx.obligation(name, fn, "refuted-known", e[3], 0.0, detail=e[4], model=e[1], sample=True)
+                ctx.known_finding(fid)
+                continue
+            ctx.obligation(name, fn, st, e[3], 0.0, detail=e[4], model=e[1] if st == REFUTED else None,
+                           sample=st != PROVED or name.startswith("ctor."))
+            if st == REFUTED:
+                ctx.violation(name, {"function": fn, "model": e[1], "solver_output": "finite enumeration: " + str(e[1]),
+                                     "snippet": None}, False, what=str(e[1])[:300])
+
+
+def p_varints(ctx):
+    from contracts import cy
+    cy.register(ctx, ["zigzag_long", "long_zigzag", "read_unsigned_var_int", "encode_unsigned_varint"])
+    for fn in (kernels.k_zigzag, kernels.k_read_varint, kernels.k_encode_varint):
+        res = fn(10000 if ctx.tier == "quick" else 60000)
+        for name in res.order:
+            st = res.status(name)
+            e = res.d[name][0]
+            ctx.obligation(name, "cencoding." + name.split(".")[0], st, e[3], sum(x[2] for x in res.d[name]), detail=e[4],
+                           model=e[1] if st == REFUTED else None, sample=("roundtrip" in name or st != PROVED))
+            if st == REFUTED:
+                ctx.violation(name, {"function": name.split(".")[0], "model": e[1], "solver_output": str(e[1])}, False, what=str(e[1])[:300])
 
 
 def run(ctx):
-    return run_property(ctx, 'exploration', EXPLANATION, p_parts=p_parts(), b_modules=['c10_idl_roundtrip'],
-                        assumptions=["pandas / numpy / cramjam behaviour inside every opaque value",
-                                     "the oracle (plain pandas / the spec library under /verif/spec) is a faithful reading of the property"],
-                        trusted=["bounded layer: enumerated inputs only; nothing outside the stated bound is covered"])
+    return run_property(ctx, "other", EXPLANATION, p_parts=[p_tables, p_varints], b_modules=["c10_idl_roundtrip"],
+                        assumptions=["the IDL file shipped with the library (parquet.thrift) is the normative one",
+                                     "a struct absent from the tables is refused with an error (KeyError) when used"] + kernels.ASSUMED,
+                        trusted=["spec/thrift_idl.py (IDL parser, validated by re-encoding 24 third-party footers byte-identically)",
+                                 "z3", "own VC generator"])
